@@ -12,6 +12,11 @@
 From IL Require Import Model.Conc Model.ConcSnap Proofs.Conc Proofs.ConcSnap.
 Open Scope N_scope.
 
+(* Operations (sop): multi-tuple insert / delete batches, and every rule-catalog operation that
+   publishes a snapshot: register a clause, remove a clause by index (first, middle or last; the
+   rule disappears with its last clause), drop a rule, clear a rule, replace a clause.  A rejected
+   catalog operation (unknown rule, index out of bounds) is not applied and not acknowledged. *)
+
 (* Every completed read — by any client, under any interleaving with any writers — returned the
    facts and rules as they were after some PREFIX of the final apply order of WHOLE operations
    (state_after folds whole batches with set semantics: a partially applied batch is not such a
@@ -51,6 +56,19 @@ Example C20_nonvacuous :
   map (fun o => (o_id o, vfacts (o_view o), o_k o)) (gobs g) =
     [(3, [(0, 10); (0, 11); (0, 12)], 1%nat);
      (4, [(0, 10); (0, 11); (0, 12); (0, 13); (0, 14)], 2%nat)].
+Proof. vm_compute. reflexivity. Qed.
+
+(* non-vacuity for the rule catalog: one client registers three clauses of rule 0, removes the
+   middle one (not the last remaining clause) and reads at once: it sees clauses 1 and 3; another
+   client that read in between still holds the three-clause snapshot; removing clause index 5 is
+   rejected and changes nothing *)
+Example C20_nonvacuous_rules :
+  let progs := [[SRule 1 0 1; SRule 2 0 2; SRule 3 0 3; SRemClause 4 0 1; SRead 5; SRemClause 6 0 5; SRead 7];
+                [SRead 8]] in
+  let sched := [0; 0; 0; 1; 0; 0; 0; 1; 0; 0; 0]%nat in
+  let g := snd (run_sched step20 sched (map init_l progs) (init_g (mkView [] []))) in
+  map (fun o => (o_id o, flat_rules (vrules (o_view o)), o_k o)) (gobs g) =
+    [(5, [1; 3], 4%nat); (8, [1; 2; 3], 3%nat); (7, [1; 3], 4%nat)].
 Proof. vm_compute. reflexivity. Qed.
 
 Print Assumptions C20_prefix.
